@@ -49,7 +49,7 @@ class C11(Check):
                    'the must-be-zero clause is one-directional (the code may zero more, e.g. spline rejections and region growth)',
                    'output pixels within 1e-6 pixel (float32 grids: 1e-3 pixel) of a good input pixel are free (boundary band)',
                    'reproduction is asserted only >= 5 input pixels away from any bad pixel or edge, for noise-free inputs of period >= 60 px']
-    REQUIRED_COUNTERS = ('tiny_flux_unit_cases', 'calls_1d', 'calls_2d', 'calls_no_ivar', 'must_be_zero_pixels', 'nonzero_ivar_pixels_interp_checked',
+    REQUIRED_COUNTERS = ('scaling_noisy_cases', 'scaling_without_ivar', 'tiny_flux_unit_cases', 'calls_1d', 'calls_2d', 'calls_no_ivar', 'must_be_zero_pixels', 'nonzero_ivar_pixels_interp_checked',
                          'allbad_cases', 'disjoint_grid_cases', 'reproduction_cases', 'scaling_cases', 'deredshift_cases',
                          'method_traditional', 'method_noconst', 'method_mean', 'method_damp', 'method_nothing', 'float32_cases',
                          'isolated_good_pixel_cases', 'multi_group_cases')
@@ -77,7 +77,7 @@ class C11(Check):
     def budget(self, tier):
         k = 1 if tier == 'quick' else 60
         return {'single': 260 * k, 'stack2d': 90 * k, 'no_ivar': 40 * k, 'allbad': 20 * k, 'reproduce': 60 * k,
-                'scaling': 40 * k, 'deredshift': 40 * k, 'float32': 40 * k}
+                'scaling': 80 * k, 'deredshift': 40 * k, 'float32': 40 * k}
 
     # ------------------------------------------------------------------ gen
     def _mask(self, rng, g, n, pat=None):
@@ -105,7 +105,7 @@ class C11(Check):
 
     def _grid(self, rng, ll, dl, kind=None):
         n = ll.size
-        kind = kind or rng.choice(['same', 'shift', 'wider', 'narrower', 'coarser', 'finer', 'disjoint', 'wider'])
+        kind = kind or rng.choice(['same', 'shift', 'wider', 'narrower', 'coarser', 'finer', 'disjoint', 'wider', 'touching'])
         l0 = float(ll[0])
         if kind == 'same':
             nl = ll.copy()
@@ -120,6 +120,15 @@ class C11(Check):
             nl = l0 + dl * f * np.arange(max(3, n // f)) + rng.uniform(0, 1) * dl
         elif kind == 'finer':
             nl = l0 + dl * 0.5 * np.arange(2 * n - 1) + rng.choice([0.0, rng.uniform(0, 0.5)]) * dl
+        elif kind == 'touching':
+            # a grid that reaches into the data by only 1-4 pixels, with its first or with its last pixels (F-C5: the only
+            # good output pixels are the first one or two)
+            m, k = rng.randint(5, 60), rng.randint(1, 4)
+            off = rng.choice([0.0, rng.uniform(0, 1)])
+            if rng.random() < 0.5:
+                nl = l0 + dl * (n - 1 - k + off + np.arange(m))           # first k pixels inside the data range
+            else:
+                nl = l0 + dl * (k - m + off + np.arange(m))               # last k pixels inside
         else:
             nl = l0 + dl * (n + 10 + np.arange(rng.randint(5, 60)))
             if rng.random() < 0.5:
@@ -176,9 +185,19 @@ class C11(Check):
             const = rng.random() < 0.25
             iv, pat = self._mask(rng, g, n, rng.choice(['none', 'edges', 'runs']))
             shift = 0.0 if rng.random() < 0.5 else rng.uniform(0.05, 0.95)
-            return {'kind': cls, 'n': n, 'l0': l0, 'dl': dl, 'period': per, 'amp': amp, 'level': rng.uniform(5, 20), 'const': const,
+            case = {'kind': cls, 'n': n, 'l0': l0, 'dl': dl, 'period': per, 'amp': amp, 'level': rng.uniform(5, 20), 'const': const,
                     'iv': iv.tolist(), 'shift': shift, 'c': rng.choice([2.0, 0.5, 3.7, 1e3, 1e-3, -1.0, 1e-10, 1e-17, 1e12]), 'method': meth, 'pattern': pat,
                     'unit': rng.choice([1.0, 1.0, 1e-17, 1e5])}
+            if cls == 'scaling' and rng.random() < 0.5:
+                # noisy spectra (pixel-to-pixel structure, so the fit's own rejection is exercised), with or without an inverse
+                # variance: c is a power of two, for which (c*flux, ivar/c^2) is an exact rescaling of every intermediate
+                # quantity and any dependence on c is a dependence on the units
+                case['noise'] = rng.choice([0.05, 0.3, 1.0])
+                case['noise_seed'] = rng.getrandbits(32)
+                case['omit_ivar'] = rng.random() < 0.5
+                case['c'] = 2.0 ** rng.choice([10, 14, 20, 40, -10, -20, -40, 1, 8])
+                case['unit'] = 1.0
+            return case
         if cls == 'deredshift':
             n = rng.randint(300, 600)
             nobj = rng.randint(1, 3)
@@ -321,8 +340,17 @@ class C11(Check):
     def run_scaling(self, case, out):
         ll, sig, iv, nl = self._smooth_case(case)
         c = case['c']
-        f1, i1 = self._c1f(ll.copy(), sig(ll), nl.copy(), iv.copy(), case['method'])
-        f2, i2 = self._c1f(ll.copy(), c * sig(ll), nl.copy(), iv.copy() / c ** 2, case['method'])
+        fl = sig(ll)
+        if case.get('noise'):
+            fl = fl + case['noise'] * np.random.default_rng(case['noise_seed']).normal(size=fl.size)
+            out.count('scaling_noisy_cases')
+        omit = bool(case.get('omit_ivar'))
+        out.count('scaling_without_ivar', omit)
+        f1, i1 = self._c1f(ll.copy(), fl.copy(), nl.copy(), None if omit else iv.copy(), case['method'])
+        f2, i2 = self._c1f(ll.copy(), c * fl, nl.copy(), None if omit else iv.copy() / c ** 2, case['method'])
+        if omit:
+            # without an inverse variance the weights are unit weights in both calls: only the flux carries the units
+            i2 = i2 / c ** 2
         out.count('calls_1d', 2)
         out.count('method_' + case['method'])
         if not (self._basic(out, f1, i1, nl, 'scaling-a') and self._basic(out, f2, i2, nl, 'scaling-b')):
